@@ -164,6 +164,14 @@ def tryParseExt (c : Cursor) (payloadLength : Nat) (cur : ExtS) : Out (ExtS × C
       if s.exts.isEmpty then pure (cur, c) else pure (s, c.setSize (c.size - extSize))
     else pure (cur, c)
 
+/-- `try_parse_extensions(stream)`: only for the types RFC 4884 extends -/
+def tryParseExtIf (allowed : Bool) (c : Cursor) (payloadLength : Nat) : Out (ExtS × Cursor) :=
+  if allowed then tryParseExt c payloadLength ExtS.default else pure (ExtS.default, c)
+
+/-- a member that is only on the wire for some types: read `n` bytes, or keep the zero-initialised value -/
+def readIf (on : Bool) (n : Nat) (c : Cursor) : Out (Bytes × Cursor) :=
+  if on then c.read n else pure (List.replicate n 0, c)
+
 /-- the end of the parsing constructors: `if (stream) inner_pdu(new RawPDU(stream.pointer(), stream.size()));` -/
 def finishRaw {α} (site : String) (p : α) (c : Cursor) : Out (α × Inner) :=
   if c.toBool then do
